@@ -277,12 +277,23 @@ type Inconclusive struct{ Msg string }
 
 func (e *Inconclusive) Error() string { return "inconclusive: " + e.Msg }
 
+// HarnessBug is a failed self-check of the harness. The run ends without a saved case: the
+// driver reports it as inconclusive (exit 2), never as a violation.
+type HarnessBug struct{ Msg string }
+
+func (e *HarnessBug) Error() string { return "harness bug (inconclusive): " + e.Msg }
+
 // Safe runs f and converts a panic into an error (with stack).
 func Safe(f func() error) (err error) {
 	defer func() {
 		if r := recover(); r != nil {
 			if tn := fmt.Sprintf("%T", r); strings.HasPrefix(tn, "rapid.") || strings.HasPrefix(tn, "*rapid.") {
 				panic(r) // rapid's own control flow (invalid data, stop test): not ours to catch
+			}
+			if msg := fmt.Sprint(r); strings.HasPrefix(msg, "harness bug") || strings.Contains(msg, "HARNESS-HEALTH") {
+				// an assertion of the harness about itself: never a verdict about pogreb
+				err = &HarnessBug{Msg: msg + "\n" + trimStack(debug.Stack())}
+				return
 			}
 			err = fmt.Errorf("panic: %v\n%s", r, trimStack(debug.Stack()))
 		}
@@ -350,6 +361,9 @@ func Run(t *testing.T, property, check string, prop Prop) {
 			if _, ok := err.(*Inconclusive); ok {
 				t.Skipf("%v", err)
 			}
+			if _, ok := err.(*HarnessBug); ok {
+				t.Skipf("INCONCLUSIVE: %v", err)
+			}
 			failed = true
 			saveCase(property, check, &ch.recorder, err)
 			t.Fatalf("REPLAY-VIOLATION property=%s check=%s: %v\nnotes:\n%s", property, check, err, strings.Join(tail(ch.notes, 60), "\n"))
@@ -366,6 +380,9 @@ func Run(t *testing.T, property, check string, prop Prop) {
 		}
 		if inc, ok := err.(*Inconclusive); ok {
 			rt.Skipf("%v", inc)
+		}
+		if hb, ok := err.(*HarnessBug); ok {
+			rt.Fatalf("INCONCLUSIVE: %v", hb)
 		}
 		failed = true
 		p := saveCase(property, check, &ch.recorder, err)
@@ -400,6 +417,9 @@ func RunEnum(t *testing.T, property, check string, cases [][]int64, prop Prop) {
 			if _, ok := err.(*Inconclusive); ok {
 				t.Skipf("%v", err)
 			}
+			if _, ok := err.(*HarnessBug); ok {
+				t.Skipf("INCONCLUSIVE: %v", err)
+			}
 			failed = true
 			saveCase(property, check, &ch.recorder, err)
 			t.Fatalf("REPLAY-VIOLATION property=%s check=%s: %v\nnotes:\n%s", property, check, err, strings.Join(tail(ch.notes, 60), "\n"))
@@ -414,6 +434,9 @@ func RunEnum(t *testing.T, property, check string, cases [][]int64, prop Prop) {
 		}
 		if _, ok := err.(*Inconclusive); ok {
 			t.Fatalf("inconclusive: %v", err)
+		}
+		if _, ok := err.(*HarnessBug); ok {
+			t.Fatalf("INCONCLUSIVE: %v", err)
 		}
 		failed = true
 		p := saveCase(property, check, &ch.recorder, err)
